@@ -2,6 +2,7 @@ package ysgo
 
 import (
 	"fmt"
+	"math"
 	"reflect"
 	"time"
 
@@ -59,10 +60,20 @@ func waitCommand(args []*variable.Value) <-chan error {
 	}
 	ch := make(chan error, 1)
 	go func() {
-		time.Sleep(time.Duration(*duration.Number) * time.Second)
+		time.Sleep(secondsToDuration(*duration.Number))
 		ch <- nil
 	}()
 	return ch
+}
+
+// secondsToDuration converts a number of seconds, fractional or not, to a duration.
+// Durations that cannot be represented are saturated.
+func secondsToDuration(seconds float64) time.Duration {
+	nanoseconds := seconds * float64(time.Second)
+	if nanoseconds >= float64(math.MaxInt64) {
+		return time.Duration(math.MaxInt64)
+	}
+	return time.Duration(nanoseconds)
 }
 
 func (storer *commandStorer) addCommand(commandID string, command YarnSpinnerCommand) {
